@@ -348,6 +348,23 @@ def apply_express_fault(text, f):
         s, e, tk = ids[f["tok"] % len(ids)]
         s2, e2, tk2 = ids[f["with"] % len(ids)]
         return text[:s] + text[s2:e2] + text[e:], text[s:e] != text[s2:e2], "identifier" if kind == "id-subst" else "reserved-word"
+    if kind == "ns-subst":
+        # a reference position (after '.', after the group qualifier, before '(' or '[') gets a name from another namespace:
+        # a rule label, or the name introduced by TYPE / ENTITY / FUNCTION / PROCEDURE / RULE / SCHEMA
+        ids = [(n, t) for n, t in enumerate(toks) if t[2] == "keyword" and text[t[0]:t[1]].upper() not in RESERVED]
+        targets, sources = [], []
+        for n, t in ids:
+            prev = text[toks[n - 1][0]:toks[n - 1][1]] if n else ""
+            nxt = text[toks[n + 1][0]:toks[n + 1][1]] if n + 1 < len(toks) else ""
+            if prev in (".", "\\") or nxt in ("(", "["):
+                targets.append(t)
+            if (nxt == ":" and prev in (";", "WHERE", "UNIQUE", "where", "unique")) or prev.upper() in ("TYPE", "ENTITY", "FUNCTION", "PROCEDURE", "RULE", "SCHEMA"):
+                sources.append(t)
+        if not targets or not sources:
+            return text, False, "no-reference-position"
+        s, e, tk = targets[f["tok"] % len(targets)]
+        s2, e2, tk2 = sources[f["with"] % len(sources)]
+        return text[:s] + text[s2:e2] + text[e:], text[s:e] != text[s2:e2], "reference"
     if kind == "garble":
         s, e, tk = toks[f["tok"] % len(toks)]
         return text[:s] + f.get("text", "") + text[e:], text[s:e] != f.get("text", ""), "garble-" + tk
@@ -381,8 +398,10 @@ def apply_all_express(text, faults):
 
 def gen_express_fault(r):
     k = r.choice(["truncate", "flip", "nul", "hibit", "tok-del", "tok-del", "tok-dup", "tok-swap", "tok-swap", "stretch", "stretch", "nest", "nonascii", "no-final-newline",
-                  "quote-del", "newline-in-string", "quote-ins", "id-subst", "id-subst", "id-subst", "kw-subst", "kw-subst", "garble"])
+                  "quote-del", "newline-in-string", "quote-ins", "id-subst", "id-subst", "id-subst", "kw-subst", "kw-subst", "garble", "ns-subst", "ns-subst", "ns-subst"])
     big = r.randint(0, 10 ** 9)
+    if k == "ns-subst":
+        return {"kind": k, "tok": big, "with": r.randint(0, 10 ** 9)}
     if k == "quote-del":
         return {"kind": k, "tok": big, "which": r.choice(["open", "close", "close"])}
     if k == "newline-in-string":
@@ -416,7 +435,7 @@ def pathological_schema(r):
     c = r.choice(["deep-scopes", "deep-if", "deep-expr", "long-remark", "long-string", "long-identifier", "many-entities", "deep-select", "deep-subtype",
                   "use-cycle", "use-cycle", "self-use", "function-as-value", "long-binary", "long-encoded", "wide-expr", "deep-aggregate-type", "deep-index",
                   "deep-query", "many-params", "supertype-expr", "subtype-cycle", "select-cycle", "type-cycle", "long-where-label", "many-enum-items",
-                  "rename-clash", "derive-cycle"])
+                  "rename-clash", "derive-cycle", "kind-confusion", "kind-confusion", "kind-confusion", "same-name-across-schemas", "same-name-across-schemas"])
     n = r.choice([21, 30, 100])
     multi = _patho_more(r, c, n)
     if multi is not None:
@@ -462,6 +481,32 @@ def _patho_more(r, c, n):
                         "y : INTEGER := patho;", "y : INTEGER := f(1)(2);", "y : INTEGER := f();", "y : INTEGER := f(1, 2, 3);", "y : INTEGER := e(1);", "y : INTEGER := SIZEOF;"])
         return ("SCHEMA patho;\nTYPE t = INTEGER; END_TYPE;\nFUNCTION f (a : INTEGER) : INTEGER;\nRETURN (a);\nEND_FUNCTION;\nPROCEDURE p (a : INTEGER);\nEND_PROCEDURE;\n"
                 "ENTITY e; x : INTEGER;\nDERIVE\n %s\nEND_ENTITY;\nEND_SCHEMA;\n" % use)
+    if c == "kind-confusion":
+        # a name of one namespace (rule label, type, enumeration item, function, schema, constant, entity) used where another kind is
+        # expected: after a dot, as a group qualifier, as a supertype, as an attribute type, as a call, as an index base
+        name = r.choice(["wr1", "u1", "t", "en", "red", "f", "p", "patho", "c", "e", "d", "rr", "x"])
+        use = r.choice(["wr2 : SELF.%s > 0;", "wr2 : SELF\\%s.x > 0;", "wr2 : SELF\\e.%s > 0;", "wr2 : %s.x > 0;", "wr2 : %s[1] > 0;", "wr2 : %s(1) > 0;",
+                        "wr2 : SIZEOF(QUERY(i <* [SELF] | i.%s = 1)) = 0;", "wr2 : '%s' IN TYPEOF(SELF.%s);", "wr2 : %s IN [1];", "wr2 : x IN %s;",
+                        "wr2 : {1 <= %s <= 2};", "wr2 : %s LIKE 'a';", "wr2 : -%s = 1;", "wr2 : NOT %s;", "wr2 : %s || 'a' = 'b';", "wr2 : SELF.%s + 1 > 0;", "wr2 : SELF.%s * x > 0;", "wr2 : SELF.%s.x > 0;",
+                        "wr2 : SELF.%s[1] > 0;", "wr2 : SIZEOF(SELF.%s) > 0;", "wr2 : f(SELF.%s) > 0;", "wr2 : (SELF.%s = 1) AND (x > 0);"])
+        use = use.replace("%s", name)
+        decl = r.choice(["", "ENTITY e2 SUBTYPE OF (%s);\nEND_ENTITY;\n" % name, "ENTITY e3;\n a : %s;\nEND_ENTITY;\n" % name,
+                         "ENTITY e4;\n a : INTEGER;\nINVERSE\n i : e FOR %s;\nEND_ENTITY;\n" % name, "TYPE t2 = SELECT (%s);\nEND_TYPE;\n" % name,
+                         "ENTITY e5;\n a : INTEGER;\nUNIQUE\n u : %s;\nEND_ENTITY;\n" % name, "FUNCTION g (a : %s) : %s;\nRETURN (a);\nEND_FUNCTION;\n" % (name, name)])
+        return ("SCHEMA patho;\nCONSTANT\n c : INTEGER := 1;\nEND_CONSTANT;\nTYPE t = INTEGER;\nWHERE\n tw : SELF > 0;\nEND_TYPE;\nTYPE en = ENUMERATION OF (red, green);\nEND_TYPE;\n"
+                "FUNCTION f (a : INTEGER) : INTEGER;\nRETURN (a);\nEND_FUNCTION;\nPROCEDURE p (a : INTEGER);\nEND_PROCEDURE;\n"
+                "ENTITY e;\n x : INTEGER;\nDERIVE\n d : INTEGER := x + 1;\nUNIQUE\n u1 : x;\nWHERE\n wr1 : x > 0;\n %s\nEND_ENTITY;\n%s"
+                "RULE rr FOR (e);\nWHERE\n rw : SIZEOF(e) >= 0;\nEND_RULE;\nEND_SCHEMA;\n" % (use, decl))
+    if c == "same-name-across-schemas":
+        # two schemas of one file declaring entities (types, functions) of the same name, with sub/supertype structure around them
+        sup_a = r.choice(["", " SUPERTYPE OF (x)", " ABSTRACT SUPERTYPE OF (ONEOF (x))"])
+        x_a = r.choice([" SUPERTYPE OF (leaf) SUBTYPE OF (top)", " SUBTYPE OF (top)", " SUPERTYPE OF (leaf)"])
+        x_b = r.choice([" SUPERTYPE OF (leaf)", "", " ABSTRACT SUPERTYPE OF (ONEOF (leaf, other))", " SUPERTYPE OF (leaf ANDOR other)"])
+        link = r.choice(["", "USE FROM a (top);\n", "REFERENCE FROM a (x AS ax);\n", "USE FROM a;\n"])
+        return ("SCHEMA a;\nENTITY top%s;\nEND_ENTITY;\nENTITY x%s;\n n : INTEGER;\nEND_ENTITY;\nENTITY leaf SUBTYPE OF (x);\nEND_ENTITY;\n"
+                "TYPE t = INTEGER;\nEND_TYPE;\nFUNCTION f (a : t) : t;\nRETURN (a);\nEND_FUNCTION;\nEND_SCHEMA;\n"
+                "SCHEMA b;\n%sENTITY x%s;\n m : REAL;\nEND_ENTITY;\nENTITY leaf SUBTYPE OF (x);\nEND_ENTITY;\nENTITY other SUBTYPE OF (x);\nEND_ENTITY;\n"
+                "TYPE t = REAL;\nEND_TYPE;\nFUNCTION f (a : t) : t;\nRETURN (a);\nEND_FUNCTION;\nEND_SCHEMA;\n" % (sup_a, x_a, link, x_b))
     if c == "long-binary":
         L = r.choice([300, 10000, 100000])
         return "SCHEMA patho;\nCONSTANT c : BINARY := %" + "".join(r.choice("01") for _ in range(L)) + ";\nEND_CONSTANT;\nEND_SCHEMA;\n"
